@@ -932,6 +932,9 @@ class SymExec(object):
                                             lambda x: x[1][1][x[2]])
                     parts = tuple(inst(i_) for i_ in items_)
                     return ('bool', 'and' if f[1] == 'all' else 'or', parts) if len(parts) > 1 else parts[0]
+            if f == ('name', 'list') and len(args) == 1 and not kws and args[0][0] == 'call' and args[0][1] in (('name', 'tuple'), ('name', 'list')) \
+                    and len(args[0][2]) == 1 and not args[0][3] and args[0][2][0][0] in ('genexp', 'listcomp'):
+                return ('listcomp',) + args[0][2][0][1:]        # list(tuple(<comprehension>)): the same elements in a list
             if f == ('name', 'list') and len(args) == 1 and not kws and args[0][0] in ('genexp', 'listcomp'):
                 return ('listcomp',) + args[0][1:]
             if f[0] == 'attr' and f[2] == 'get' and f[1][0] == 'dict' and 1 <= len(args) <= 2 and not kws \
